@@ -341,6 +341,61 @@ func C02(r *h.Run) {
 			}
 		}
 	}
+	// the REQUEST's own context is ended by the server side (a per-route budget middleware, a
+	// draining server's BaseContext) while the peer is still connected, and the handler returns
+	// its error: the error is written all the same
+	for _, proto := range protos {
+		for _, k := range []int{-1, 0, 2} { // -1: unary; else server stream with k messages sent before the error
+			cfg := envCfg{Proto: proto}
+			code := connect.CodeResourceExhausted
+			retErr := mkError(code, "budget exhausted", 1, http.Header{"X-Err": {"kept"}})
+			ctx, cancel := context.WithCancel(context.Background())
+			var handler *connect.Handler
+			if k < 0 {
+				handler = connect.NewUnaryHandler("/verif.Svc/M", func(_ context.Context, _ *connect.Request[h.Raw]) (*connect.Response[h.Raw], error) {
+					cancel()
+					return nil, retErr
+				}, connect.WithCodec(h.ToyCodec{}))
+			} else {
+				handler = connect.NewServerStreamHandler("/verif.Svc/M", func(_ context.Context, _ *connect.Request[h.Raw], st *connect.ServerStream[h.Raw]) error {
+					for i := 0; i < k; i++ {
+						_ = st.Send(&h.Raw{B: []byte{byte(i)}})
+					}
+					cancel()
+					return retErr
+				}, connect.WithCodec(h.ToyCodec{}))
+			}
+			unary := k < 0 && proto == "connect"
+			body := h.Frame(0, []byte("q"))
+			if unary {
+				body = []byte("q")
+			}
+			req := httptest.NewRequest(http.MethodPost, "/verif.Svc/M", bytes.NewReader(body)).WithContext(ctx)
+			req.ProtoMajor, req.ProtoMinor = 2, 0
+			req.Header.Set("Content-Type", cfg.contentType(k < 0))
+			rec := httptest.NewRecorder()
+			p := safely(func() { handler.ServeHTTP(rec, req) })
+			cancel()
+			kind := "server"
+			if unary {
+				kind = "unary"
+			}
+			in := map[string]any{"proto": proto, "kind": map[bool]string{true: "unary", false: "server stream"}[k < 0], "messages_before_error": k, "code": code.String(),
+				"request_context": "cancelled by the server side just before the handler returns its error; the peer is still connected"}
+			r.Eval("error_after_request_ctx_ended", fmt.Sprint(proto, k))
+			if p != nil {
+				r.Fail(h.Failure{Key: "error/panic", Family: "error_after_request_ctx_ended", What: fmt.Sprint("panic: ", p), Input: in})
+				continue
+			}
+			gotCode, gotMsg := peerError(proto, kind, rec)
+			r.Sample("error_after_request_ctx_ended", map[string]any{"in": in, "status": rec.Code, "peer_code": gotCode, "peer_message": gotMsg})
+			if gotCode == "" {
+				r.Fail(h.Failure{Key: "error/delivered-as-success", Family: "error_after_request_ctx_ended", What: "the handler's error did not reach the wire: the peer sees no error status", Input: in, Actual: fmt.Sprint("HTTP ", rec.Code, " body ", h.Hex(rec.Body.Bytes()))})
+			} else if gotCode != code.String() || gotMsg != "budget exhausted" {
+				r.Fail(h.Failure{Key: "error/code", Family: "error_after_request_ctx_ended", What: "the handler's error reached the wire changed", Input: in, Expected: code.String() + ": budget exhausted", Actual: gotCode + ": " + gotMsg})
+			}
+		}
+	}
 	// interceptor-returned and plain errors
 	for pi, proto := range protos {
 		for _, kind := range kinds {
